@@ -250,7 +250,8 @@ impl<T: RealNumber + Sum, D: Distance<Vec<T>, T>> DBSCAN<T, D> {
                 }
             }
             let class = which_max(&label);
-            if class != self.num_classes {
+            // no training point within eps: all counts are zero and the row is noise
+            if class != self.num_classes && label[class] > 0 {
                 result.set(0, i, T::from(class).unwrap());
             } else {
                 result.set(0, i, -T::one());
